@@ -12,6 +12,12 @@ def build(spec, vform=None, add=True):
     (V, expression) without adding it"""
     if vform is None:
         from pyiga import vform
+    if spec.get('predefined'):
+        # a form constructed by the library itself (e.g. stiffness_vf uses a symmetric let-variable)
+        V = getattr(vform, spec['predefined'])(spec['dim'])
+        if not add:
+            raise ValueError('predefined forms are returned complete')
+        return V
     dim = spec['dim']
     geo_dim = dim + 1 if spec.get('surface') else dim
     V = vform.VForm(dim, geo_dim=geo_dim, boundary=bool(spec.get('boundary')), arity=spec.get('arity', 2), spacetime=bool(spec.get('spacetime')))
@@ -87,8 +93,12 @@ BASE = [
     {'dim': 2, 'expr': 'tan(f)*log(2.0+g*g)*u*v*dx', 'inputs': [['f', [], False, False], ['g', [], True, False]]},
     {'dim': 3, 'expr': 'inner(dot(K, grad(u)), grad(v))*dx', 'inputs': [['K', [3, 3], True, False]]},
     {'dim': 2, 'expr': 'f*u*v*dx', 'inputs': [['f', [], False, True]]},
+    {'dim': 2, 'expr': 'inner(hess(u), hess(v))*dx'},
+    {'dim': 2, 'arity': 1, 'expr': 'inner(hess(f), hess(v))*dx', 'inputs': [['f', [], False, False]]},
+    {'dim': 2, 'expr': 'stiffness_vf', 'predefined': 'stiffness_vf'},
+    {'dim': 3, 'expr': 'stiffness_vf', 'predefined': 'stiffness_vf'},
     # both orientations of non-commutative operations on the same operands (CSE must not merge them)
-    {'dim': 2, 'expr': '((f*f*u - g*g*v)*f + (g*g*v - f*f*u)*g)*dx', 'inputs': [['f', [], False, False], ['g', [], False, False]]},
+    {'dim': 2, 'expr': '((f*f*f - g*g*g)*f + (g*g*g - f*f*f)*g + 5.0)*u*v*dx', 'inputs': [['f', [], False, False], ['g', [], False, False]]},
     {'dim': 2, 'expr': '((f*f+1.0)/(g*g+2.0)*u + (g*g+2.0)/(f*f+1.0)*v)*u*v*dx', 'inputs': [['f', [], False, False], ['g', [], True, False]]},
 ]
 
@@ -97,6 +107,8 @@ def _norm(spec):
     s = {'dim': spec['dim'], 'arity': spec.get('arity', 2), 'boundary': bool(spec.get('boundary')), 'surface': bool(spec.get('surface')),
          'spacetime': bool(spec.get('spacetime')), 'components': list(spec.get('components', [None, None])), 'spaces': list(spec.get('spaces', [0, 0])),
          'inputs': [list(i) for i in spec.get('inputs', [])], 'params': [list(p) for p in spec.get('params', [])], 'expr': spec['expr']}
+    if spec.get('predefined'):
+        s['predefined'] = spec['predefined']
     return s
 
 
